@@ -32,6 +32,7 @@ RULE += (' A connect() that fails is itself a violation.')
 RULE += (' A fifth configuration uses transports with bounded send buffers drained by the scheduler (back-pressure reaches Outbound) and up to 4 losses; in half of the non-half-close runs protocols greet from inside connectionMade().')
 RULE += (' In half of the non-half-close runs applications pause and resume subchannels (all resumed at the end) with at least two losses; not settling within 10000 events / 600 s after the last fault is a violation.')
 RULE += (' Those applications also react from inside dataReceived (answer, answer and close, close) and sometimes open the next subchannel from inside connectionLost.')
+RULE += (" Subprotocol names come from pools that include names differing only in Unicode normalisation form, case or surrounding blanks, and long names. A sixth configuration runs end to end over two real wormholes: the accepting side calls w.dilate(expected_subprotocols=<list|tuple|set|frozenset>), the opener opens 2..6 subchannels in bursts, listeners are registered before, between and after the bursts.")
 LEVEL_TEXT = ("Seeded exploration. Each connect() => exactly one "
               "buildProtocol+connectionMade on the peer under the same name "
               "(at listen time if the listener comes later); ids allocated by "
@@ -82,10 +83,180 @@ def configs(tier):
     # the fifth: transports with bounded send buffers that drain only when
     # the scheduler says so (back-pressure reaches Outbound), more losses
     return [{"half": False}, {"half": False}, {"half": True},
-            {"half": False, "burst": True}, {"half": False, "staged": True}]
+            {"half": False, "burst": True}, {"half": False, "staged": True},
+            # the sixth: end to end through w.dilate(expected_subprotocols=..)
+            {"e2e": True}]
+
+
+class _Owner:
+    def __init__(self, sim, name):
+        self.sim = sim
+        self.name = name
+        self.protocols = []
+
+    def on_sub_event(self, p, kind, data):
+        self.sim.ev("sub", self.name, kind, p.name)
+
+
+def run_e2e(seed, tape, opts):
+    """The subprotocol contract end to end: two real wormholes, the accepting
+    side calls w.dilate(expected_subprotocols=<list/tuple/set/frozenset/
+    generator-free iterable>), the opener opens 2..6 subchannels in bursts,
+    listeners are registered before / between / after the bursts."""
+    from checks import common_a as ca
+    from worlds.mailbox import MailboxWorld
+    from worlds.dilation import RecFactory
+    w = MailboxWorld(tape, dict(opts, spake="stub"))
+    sim = w.sim
+    sim.no_advance_while_connecting = True
+    sim.allow_advance = False
+    pool = tape.pick(POOLS, "pool")
+    exp_idx = tape.pick(((0,), (0, 1), (0, 1, 2), (1, 2), (2, 0), None),
+                        "exp")
+    cont = tape.pick((list, tuple, set, frozenset), "cont")
+    exp_b = None if exp_idx is None else cont(pool[i] for i in exp_idx)
+    declared = set(pool) if exp_idx is None else set(pool[i] for i in exp_idx)
+    a = w.add_client("A", api="deferred", dilation=True)
+    b = w.add_client("B", api="deferred", dilation=True)
+    code = ca.fixed_code(tape)
+    a.script = [("set_code", code), ("dilate", {})]
+    b.script = [("set_code", code),
+                ("dilate", {"expected_subprotocols": exp_b})]
+    viol = []
+
+    def V(key, clause, detail):
+        if not viol:
+            viol.append({"key": key, "clause": clause, "detail": detail +
+                         " | expected_subprotocols=%r" % (exp_b,)})
+
+    def mgr(c):
+        return c.w._boss._D._manager
+
+    def connected():
+        return all(mgr(c) is not None and mgr(c)._connection is not None
+                   for c in (a, b))
+    sim.run(8000, until=connected, max_time=300)
+    if not connected():
+        w.finish()
+        return ca.result(sim, w, None, False, seed,
+                         extra_sample={"e2e": True, "setup": "no connection"})
+    oa, ob = _Owner(sim, "A"), _Owner(sim, "B")
+    opened = []          # (name, factory)
+    listening = set()
+
+    def do_open():
+        name = tape.pick(pool, "e_oname")
+        f = RecFactory(oa, name, "opener")
+        a.dilated.connector_for(name).connect(f)
+        opened.append((name, f))
+
+    def do_listen():
+        left = [n for n in sorted(declared) if n not in listening]
+        if left:
+            n = tape.pick(left, "e_lname")
+            listening.add(n)
+            b.dilated.listener_for(n).listen(RecFactory(ob, n, "acceptor"))
+    plan = ["open"] * (2 + tape.choose(5, "e_nopen")) + \
+        ["listen"] * len(declared) + ["run"] * 3
+    # bursts: the order of opens, listens and pauses comes from the tape
+    order = []
+    while plan:
+        order.append(plan.pop(tape.choose(len(plan), "e_order")))
+    for step in order:
+        if step == "open":
+            do_open()
+        elif step == "listen":
+            do_listen()
+        else:
+            sim.run(1 + tape.choose(80, "e_gap"), max_time=20)
+    while len(listening) < len(declared):
+        do_listen()
+    # every opener writes one chunk as soon as it is connected
+
+    def write_pending():
+        for name, f in opened:
+            for p in f.built:
+                if p.made and not p.lost and not p.writes:
+                    data = b"data for " + name.encode("utf-8")
+                    try:
+                        p.transport.write(data)
+                        p.writes.append(data)
+                    except Exception as e:
+                        V("C13.e2e_write_failed", "a subchannel opened under "
+                          "a declared name is usable", "%r: %r" % (name, e))
+    sim.after_step = write_pending
+
+    def settled():
+        for name, f in opened:
+            ps = f.built
+            if not ps or not ps[0].made:
+                return False
+            if name in declared:
+                q = [x for x in ob.protocols if x.made and x.scid ==
+                     ps[0].scid]
+                if not q or b"".join(q[0].data) != b"".join(ps[0].writes) \
+                        or not ps[0].writes:
+                    return False
+            elif not ps[0].lost:
+                return False
+        return True
+    r = sim.run(12000, until=lambda: bool(viol) or settled(), max_time=300)
+    for name, f in opened:
+        if viol:
+            break
+        p = f.built[0] if f.built else None
+        qs = [x for x in ob.protocols
+              if p is not None and x.made and x.scid == p.scid]
+        if name in declared:
+            if p is None or not p.made:
+                V("C13.e2e_never_connected", "a subchannel opened by one side "
+                  "appears on the other side", "connect(%r) never completed" %
+                  (name,))
+            elif p.lost:
+                V("C13.declared_refused", "a subchannel opened under a name "
+                  "the peer declared as expected appears on the other side "
+                  "(at once, or when a listener is registered later)",
+                  "the opener of %r was told connectionLost although nobody "
+                  "closed it (opens %r)" % (name, [n for n, _ in opened]))
+            elif len(qs) != 1:
+                V("C13.never_appeared" if not qs else "C13.appeared_twice",
+                  "a subchannel opened by one side appears exactly once on "
+                  "the other side", "%r (scid %s) appeared %d times on B "
+                  "(opens %r, listeners %r)" %
+                  (name, p.scid, len(qs), [n for n, _ in opened],
+                   sorted(listening)))
+            elif qs[0].name != name:
+                V("C13.wrong_subprotocol", "the subchannel appears under the "
+                  "requested subprotocol", "%r vs %r" % (qs[0].name, name))
+            elif b"".join(qs[0].data) != b"".join(p.writes):
+                V("C13.e2e_data_missing", "data written to the subchannel "
+                  "reaches the peer", "%r: wrote %r, peer has %r" %
+                  (name, p.writes, qs[0].data))
+        else:
+            if qs:
+                V("C13.undeclared_accepted", "an OPEN for a subprotocol "
+                  "outside the declared set is refused", "%r appeared on B" %
+                  (name,))
+            elif p is not None and p.made and not p.lost:
+                V("C13.undeclared_not_refused", "an OPEN for a subprotocol "
+                  "outside the set the application declared as expected is "
+                  "refused by closing it rather than held open",
+                  "the opener of %r never saw connectionLost" % (name,))
+    sim.after_step = None
+    for c in (a, b):
+        c.do_close()
+    sim.run(4000, until=lambda: a.is_closed and b.is_closed, max_time=200)
+    w.finish()
+    return ca.result(sim, w, viol[0] if viol else None, len(opened) >= 2,
+                     seed, extra_sample={"e2e": True, "pool": list(pool),
+                                         "expected": repr(exp_b),
+                                         "order": order,
+                                         "opens": [n for n, _ in opened]})
 
 
 def run_one(seed, tape, opts):
+    if opts.get("e2e"):
+        return run_e2e(seed, tape, opts)
     POOL = tape.pick(POOLS, "pool")
     exp = {"A": tape.pick(EXPECTED, "expA"), "B": tape.pick(EXPECTED, "expB")}
     exp = {k: (None if v is None else tuple(POOL[i] for i in v))
